@@ -154,6 +154,11 @@ def h_http(nargs, variant, backslash=False, focus="arg1"):
             get = [("_HEADER", SymBytes(list(b"Accept: x") + hv.cells)), ("BUILD", "metadata"), ("BASE64", True), ("PREPEND", a1), ("APPEND", a2), ("HEADER", b"Cookie")]
             post = [("_PARAMETER", b"k=v"), ("BUILD", "id"), ("NETBIOS", True), ("PARAMETER", b"id"), ("BUILD", "output"), ("MASK", True), ("PREPEND", a3), ("PRINT", True)]
             recover = [("print", True), ("append", 2), ("prepend", 3), ("base64", True)]
+            if focus == "rlen":
+                # symbolic length (0..4) of a server-output append: the u32 length field of the stored recover program
+                rl = sym_int("rlen", 0, 4)
+                rl_cells = as_bytes(m_int_to_bytes(rl, 4, "big")).cells
+                recover = [("print", True), ("append", SymBytes(rl_cells)), ("prepend", 3), ("base64", True)]
             want_meta = ["base64", ("prepend", a1), ("append", a2), ("header", b"Cookie")]
             want_id = ["netbios", ("parameter", b"id")]
             want_out = ["mask", ("prepend", a3), "print"]
@@ -199,6 +204,9 @@ def h_http(nargs, variant, backslash=False, focus="arg1"):
         # server output: kinds and argument lengths of the recover program (order deliberately not asserted)
         so = d.get("http-get.server.output") or []
         kinds = sorted((x if isinstance(x, str) else x[0], 0 if isinstance(x, str) else len(as_bytes(x[1]).cells)) for x in so)
+        if focus == "rlen" and variant == 0:
+            rlv = concretize(rl) if not is_native() else rl
+            recover = [("print", True), ("append", rlv), ("prepend", 3), ("base64", True)]
         want_kinds = sorted((k, v if isinstance(v, int) and v is not True else 0) for k, v in recover)
         ctx.prove(kinds == want_kinds, "http-get.server.output states the recover steps with their lengths (got %r want %r)" % (kinds, want_kinds))
     return body
@@ -355,6 +363,8 @@ def instances(tier):
                     continue
                 out.append(Instance("http variant=%d symbolic %s of %d bytes" % (variant, focus, n), h_http(n, variant, focus=focus),
                                     dict(kind="http", variant=variant, symbolic=focus, arg_bytes=n, cost=9 ** n), split=10))
+        if variant == 0:
+            out.append(Instance("http variant=0 symbolic server-output append length", h_http(1, 0, focus="rlen"), dict(kind="http", variant=0, symbolic="recover append length 0..4")))
         out.append(Instance("http variant=%d zero-length arguments" % variant, h_http(0, variant, focus="empty"), dict(kind="http", variant=variant, symbolic="none (empty arguments)")))
         out.append(Instance("http variant=%d symbolic text values" % variant, h_http(1, variant, focus="text"), dict(kind="http", variant=variant, symbolic="text", cost=100), split=10))
     out.append(Instance("http user agent with a backslash", h_http(1, 0, True, focus="text"), dict(kind="http", known_finding_region="text value containing a backslash"), expect="D14a", split=8))
